@@ -9,6 +9,7 @@ Requests (see exec/src/bin/c17.rs, lean/Compute/Drv/C17.lean):
   boxcoxs x lambda alpha     -> value | panic
   softmax2 c <vec>           -> softmax(x) followed by softmax(x .+ c)
   binom n k                  -> integer | panic        (guard => 0)
+  logsweep a b               -> counts + hash over EVERY non-negative f32 bit pattern a..b and its negation
   binomalt n k               -> integer | panic        (gamma based, inexact by design; model Model/BinomAlt.lean)
 """
 import math
@@ -22,6 +23,8 @@ BIN = "c17"
 PROOF_MODULES = ["Compute.Lemmas.C17Binom", "Compute.Props.C17", "Compute.Props.C17Alt"]
 REQUIRED_THEOREMS = [
     "Cv.C17.binom_exact", "Cv.C17.binom_symm", "Cv.C17.binom_pascal", "Cv.C17.binom_not_val_imp_large",
+    "Cv.C17.binom_val_imp_exact", "Cv.C17.binom_val_iff_fits", "Cv.C17.logit_real", "Cv.C17.logit_endpoints_defined",
+    "Cv.C17.logit_tendsto_zero", "Cv.C17.logit_tendsto_one",
     "Cv.C17.logistic_neg", "Cv.C17.logistic_pos", "Cv.C17.logistic_lt_one", "Cv.C17.logistic_strictMono",
     "Cv.C17.logit_logistic", "Cv.C17.logistic_logit", "Cv.C17.logit_rejects",
     "Cv.C17.softmax_pos", "Cv.C17.softmax_sum", "Cv.C17.softmax_order", "Cv.C17.softmax_shift",
@@ -34,16 +37,22 @@ REQUIRED_THEOREMS = [
     "Cv.C17.binomAlt_symm", "Cv.C17.binomAlt_underflow",
 ]
 RULE = ("binom_coeff_alt on n < 176 (all k thorough, sampled quick), n up to 1e12 within a log-space error bound, huge n up to 2^64-1 and k > n, "
-        "all compared with the model; "
-        "binom_coeff on every (n,k) with n <= 67 (2346 pairs, incl. k > n probes) and on n up to 2^64-1 around the "
-        "64-bit threshold of every k <= 32 (and the mirrored n-k), outcome class compared; logistic on a stratified "
-        "sample of f32-representable x in +-745 (with -x for every x), logit on p in [0,1] and outside, both round "
+        "all compared with the model; binom_coeff on every (n,k) with n <= 67 (2346 pairs, incl. k > n probes) and on n up to 2^64-1 around the "
+        "64-bit threshold of every k <= 32 (and the mirrored n-k), outcome class compared; logistic: thorough tier = EVERY f32 in +-745 "
+        "(2 x 1,144,668,161 arguments, 64 sweep requests) for range [0,1], monotonicity, reflection within 200 eps, exact zeros and the model tie "
+        "(hash of all result bits), quick tier = 12 chunks of 20000 bit patterns; accuracy against mpmath on a stratified SAMPLE of those f32 "
+        "(2e4 quick / 2e6 thorough = 0.09 % of the 2.29e9 values, with -x for every x); logit on p in [0,1] and outside, both round "
         "trips, Box-Cox on x in (1e-6,1e6), lambda in +-5 incl. |lambda| < 1e-8 and shifts of both signs, softmax "
         "on lengths 1..1000 with entries in +-1e4 together with a shifted copy; non-trivial = distinct request")
 EXHAUSTIVE = {"quick": False, "thorough": False}
 NOT_PROVED = [
     "floating-point rounding of the transforms (covered by the mpmath oracle within forward-error bounds)",
     "accuracy of libm exp/ln/pow",
+    "logistic o logit = id is proved on the open interval (0,1) only; at p = 0 and p = 1 the real-number model carries the junk values of the "
+    "totalised log 0 and 1/0, the code returns -inf / +inf (proved to be the one-sided limits: logit_tendsto_zero / logit_tendsto_one) and the "
+    "oracle checks those two results exactly",
+    "accuracy of logistic against mpmath is SAMPLED (0.09 % of the f32 arguments in the thorough tier); range, monotonicity, reflection and the "
+    "model tie are exhaustive over f32 in the thorough tier only",
     "binom_coeff_alt: the accuracy of the Lanczos ln_gamma (hypothesis LogGammaAcc / LogGammaRelAcc of binomAlt_exact_of_acc; C09's "
     "oracle enforces 1e-12 max(1,|ln Gamma|) and observes 2e-15, not proved) and the f64 rounding of the two subtractions and of exp "
     "on top of it (added to the bound by the oracle); given delta = 1e-9 (C09's bound for every n <= 225) the result is proved exact "
@@ -52,13 +61,22 @@ NOT_PROVED = [
     "softmax theorems take the fold seed as any lower bound of the entries (the reals have no -infinity)",
 ]
 TRUSTED = ["IEEE f64 arithmetic and glibc exp/log/pow shared by both executors",
+           "source tie (Props/SrcTieC17) regenerates logistic, logit, boxcox and boxcox_shifted only; softmax, binom_coeff and binom_coeff_alt "
+           "are hand models covered by the bit-for-bit tie only",
            "u64 arithmetic modelled on Nat with explicit range checks (executor built with overflow checks)"]
-ASSUMPTIONS = ["x, p, lambda, alpha finite f64 unless a request says otherwise (NaN/inf probes are compared with the model only)"]
+ASSUMPTIONS = ["x, p, lambda, alpha finite f64 unless a request says otherwise (NaN/inf probes are compared with the model only)",
+               "underflow is specified behaviour, not an error: logistic(x) is exactly 0 for x < -709.78 (exp(-x) = inf; the true value is a "
+               "positive subnormal) and a softmax entry more than 745.2 below the maximum is exactly 0; the oracle demands exactly that "
+               "(keys logistic:underflow-zero, softmax:underflow-zero) and values in [0,1] everywhere"]
 
 EPS = 2.0 ** -52
 TINY = 2.0 ** -1074
 MINNORM = 2.0 ** -1022
 U64 = 1 << 64
+F32_745 = 0x443A4000        # bit pattern of 745.0f32: the non-negative f32 values of [0, 745] are the patterns 0..F32_745
+EXP_OVERFLOW = 709.782712893384   # ln(f64::MAX): exp(x) = inf above it, so logistic(-x) is exactly 0
+MODEL_TIMEOUT = 1800
+IMPL_TIMEOUT = 900
 LNGAMMA_ENFORCED = 1e-12   # |ln_gamma - ln Gamma| <= 1e-12 max(1, |ln Gamma|): enforced by C09's oracle on every run (TOL_LNGAMMA there)
 LNGAMMA_OBSERVED = 2.1e-15 # the largest such error C09 observes
 BINOMALT_C = 32            # clause (c): |ln(result / C(n,k))| <= c (eps_lg + u) max(1, ln Gamma(n+1)); observed max 0.23 (seeds 1..5, thorough)
@@ -67,6 +85,10 @@ BINOMALT_C = 32            # clause (c): |ln(result / C(n,k))| <= c (eps_lg + u)
 # ------------------------------------------------------------------------------------------ helpers
 def f32(bits):
     return struct.unpack("<f", struct.pack("<I", bits & 0xFFFFFFFF))[0]
+
+
+def f32bits(x):
+    return struct.unpack("<I", struct.pack("<f", x))[0]
 
 
 def to_f32(x):
@@ -127,6 +149,11 @@ def corpus():
         "logit %s" % f2h(0.0), "logit %s" % f2h(1.0), "logit %s" % f2h(-0.0), "logit nan",
         "logit %s" % f2h(1.0000000000000002), "logit %s" % f2h(-5e-324),
         "logisticv %s" % vec([0.0, -0.0, float("inf"), float("-inf"), 745.0, -745.0, 709.0, -709.0, 710.0, -710.0]),
+        # specified underflow behaviour (review C17-A1): exp(710) = inf so logistic(-710) is exactly 0 (true value 4.5e-309), and a
+        # softmax entry more than 745.2 below the maximum is exactly 0
+        "logisticv %s" % vec([-710.0, -720.0, -745.0, -709.78271484375, -709.78265380859375, -708.5]),
+        "softmax2 %s %s" % (f2h(0.0), vec([0.0, -800.0, 1e4])),
+        "logsweep 1144568160 1144668160", "logsweep 0 1000",
     ]
 
 
@@ -282,6 +309,22 @@ def gen(rng, tier):
             xs += [x, -x]
         add("logisticv", "logisticv " + vec(xs))
     cover["logistic_points"] = (npts // (2 * per)) * 2 * per
+    # ---- exhaustive sweep over the f32 bit patterns of [0, 745] (and their negations): range, monotonicity, reflection, hash
+    if quick:
+        starts = [0, 0x00800000 - 10000, 0x3f800000 - 10000, f32bits(36.7368) - 10000, f32bits(709.7827) - 10000, F32_745 - 19999]
+        starts += [rng.randint(0, F32_745 - 20000) for _ in range(6)]
+        for a in starts:
+            add("logsweep", "logsweep %d %d" % (a, a + 19999))
+        cover["logsweep_patterns"] = 20000 * len(starts)
+    else:
+        nchunk = 64
+        step = (F32_745 + 1 + nchunk - 1) // nchunk
+        a = 0
+        while a <= F32_745:
+            b = min(a + step - 1, F32_745)
+            add("logsweep", "logsweep %d %d" % (a, b))
+            a = b + 1
+        cover["logsweep_patterns"] = F32_745 + 1
 
     # ---- logit, round trips
     nl = 4000 if quick else 200000
@@ -498,6 +541,7 @@ def oracle(lines, impl):
     mpf = m.mpf
     fails = []
     logi = []           # (x, value) of every logistic evaluation, for the global monotonicity check
+    sweep_edges = []    # (a, b, p_first, q_first, p_last, q_last, line) of every sweep chunk
     binom_seen = {}
     for i, (l, rep) in enumerate(zip(lines, impl)):
         t = l.split()
@@ -573,6 +617,30 @@ def oracle(lines, impl):
                                          "e^B - 1 with B = %d (eps_lg + u) ln Gamma(%d) = %.3g" % (
                                              n, k, got, c, abs(got - c) / c, BINOMALT_C, n + 1, float(B)), str(c)))
             continue
+        if op == "logsweep":
+            a, b = int(t[1]), int(t[2])
+            if st != "ok" or len(toks) != 12:
+                fails.append(Failure(i, "logistic:sweep", "sweep reply malformed: %s" % rep[:80]))
+                continue
+            cnt, br, bm, bs, fb, zeros, ones = (int(v) for v in toks[:7])
+            xbad = f32(fb) if fb < (1 << 32) else None
+            if cnt != b - a + 1:
+                fails.append(Failure(i, "logistic:sweep", "sweep %d..%d evaluated %d patterns" % (a, b, cnt)))
+            if br:
+                fails.append(Failure(i, "logistic:range", "%d f32 arguments in patterns %d..%d with logistic(+-x) outside [0,1], first x = %r" % (br, a, b, xbad)))
+            if bm:
+                fails.append(Failure(i, "logistic:monotone", "%d adjacent f32 arguments in patterns %d..%d where logistic decreases, first at x = %r" % (bm, a, b, xbad)))
+            if bs:
+                fails.append(Failure(i, "logistic:symmetry", "%d f32 arguments in patterns %d..%d with |logistic(x) + logistic(-x) - 1| > 200 eps, first x = %r" % (bs, a, b, xbad)))
+            # exact zeros: logistic(-x) = 0 exactly when exp(x) overflows (x > ln f64::MAX), and nowhere else
+            tb = f32bits(EXP_OVERFLOW)
+            if f32(tb) <= EXP_OVERFLOW:
+                tb += 1
+            want0 = max(0, b - max(a, tb) + 1)
+            if zeros != want0:
+                fails.append(Failure(i, "logistic:underflow-zero", "patterns %d..%d: logistic(-x) is exactly 0 for %d arguments, expected %d (those with exp(x) = inf)" % (a, b, zeros, want0)))
+            sweep_edges.append((a, b, h2f(toks[8]), h2f(toks[9]), h2f(toks[10]), h2f(toks[11]), i))
+            continue
         # ------------------------------------------------------------------ logistic
         if op == "logisticv":
             n = int(t[1])
@@ -591,6 +659,10 @@ def oracle(lines, impl):
                     continue
                 table[x] = v
                 logi.append((x, v))
+                if x < -EXP_OVERFLOW and v != 0.0:
+                    # specified behaviour: exp(-x) overflows to inf and 1/(1+inf) is exactly 0 (the true value is a positive subnormal)
+                    fails.append(Failure(i, "logistic:underflow-zero", "logistic(%r) = %r, expected exactly 0 (exp(%r) = inf)" % (x, v, -x), f2h(0.0)))
+                    continue
                 if math.isinf(x):
                     ref = mpf(1) if x > 0 else mpf(0)
                 else:
@@ -731,6 +803,12 @@ def oracle(lines, impl):
                     fails.append(Failure(i, "softmax:nonneg", "softmax(%s)[%d] = %r is not a non-negative finite number (input %r, n = %d)" % (
                         name, bad[0], out[bad[0]], inp[bad[0]], n)))
                     break
+                mx_ = max(inp)
+                uz = [j for j in range(n) if inp[j] - mx_ < -745.2 and out[j] != 0.0]
+                if uz:
+                    fails.append(Failure(i, "softmax:underflow-zero", "softmax(%s)[%d] = %r for an entry %r below the maximum: exp underflows, expected exactly 0" % (
+                        name, uz[0], out[uz[0]], mx_ - inp[uz[0]]), f2h(0.0)))
+                    break
                 tot = sum(Fraction(v) for v in out)
                 note("softmax_sum_neps", float(abs(tot - 1)) / (max(n, 2) * EPS))
                 if abs(tot - 1) > max(n, 2) * EPS:
@@ -770,6 +848,10 @@ def oracle(lines, impl):
                         break
             continue
     # ---------------------------------------------------------------------- global checks
+    sweep_edges.sort()
+    for (a0, b0, _, _, pl, ql, _), (a1, b1, pf, qf, _, _, i1) in zip(sweep_edges, sweep_edges[1:]):
+        if a1 == b0 + 1 and not (pf >= pl and qf <= ql):
+            fails.append(Failure(i1, "logistic:monotone", "logistic decreases between the f32 patterns %d and %d (chunk boundary)" % (b0, a1)))
     logi.sort()
     for (x0, v0), (x1, v1) in zip(logi, logi[1:]):
         if v0 > v1:
@@ -798,3 +880,18 @@ NOT_PROVED = NOT_PROVED + ['rounding of logit and Box-Cox (oracle only); for sof
 PROOF_MODULES = PROOF_MODULES + [m for m in ['Compute.Lemmas.Rounding5', 'Compute.Props.Rounding5'] if m not in PROOF_MODULES]
 REQUIRED_THEOREMS = REQUIRED_THEOREMS + ['Cv.Rounding5.logit_error', 'Cv.Rounding5.boxcox_zero_error', 'Cv.Rounding5.boxcox_error', 'Cv.Rounding5.boxcoxShifted_eq']
 NOT_PROVED = [('all float-level claims are proved in the standard model with libm exp/ln/pow of relative error <= u_f: softmax/logistic (Props/Rounding3); logit within u_f |logit p| + (1+u_f) gamma_2 for 0 < p < 1, Box-Cox within gamma_2 |bc| + (1+gamma_2) u_f x^lambda/|lambda| (lambda = 0: u_f |ln x|), boxcox_shifted = boxcox at the computed x+alpha (Props/Rounding5); the endpoints p = 0, 1 (infinite results) are oracle only' if str(x).startswith('rounding of logit and Box-Cox') else x) for x in NOT_PROVED]
+
+
+# --- review fixes (owner of C16/C17, after review-d): NOT_PROVED lists what is not proved, and every sentence about the standard-model
+# float theorems carries the no-underflow proviso (the theorems themselves live in Props/Rounding3, Lemmas/LogRounding: not this owner's files)
+_FLOAT_ENTRY = (
+    "everything at f64 OUTSIDE the standard model (libm exp/ln/pow of relative error <= u_f and NO under/overflow), which includes part of the "
+    "property's own domain: for x < -708.39 (logistic) resp. x_i - max < -708 (softmax) the computed values may be exactly 0 "
+    "(logistic(-710.0) = 0 although the true value is 4.5e-309; softmax [0,-800,1e4] = [0,0,1]), so at f64 the range of logistic is [0,1], "
+    "not (0,1], softmax entries are >= 0, not > 0, and no relative-error bound holds there; the oracle demands values in [0,1] resp. >= 0 and "
+    "EXACT zeros where exp under/overflows (keys logistic:underflow-zero, softmax:underflow-zero). Inside the standard model the owner of "
+    "Props/Rounding3 and Props/Rounding5 proves: softmax entries > 0 and |sum - 1| <= gamma_(n+1) for lengths <= 999 (the contract allows "
+    "1000), entries within an explicit factor of the exact ones, logistic in (0,1] with relative error <= gamma_2 + gamma^f_1, logit within "
+    "u_f |logit p| + (1+u_f) gamma_2 for 0 < p < 1, Box-Cox within gamma_2 |bc| + (1+gamma_2) u_f x^lambda/|lambda|; the endpoints p = 0, 1 "
+    "of logit (infinite results) are oracle only")
+NOT_PROVED = [(_FLOAT_ENTRY if ("standard model" in str(x) and "softmax" in str(x)) else x) for x in NOT_PROVED]
